@@ -150,7 +150,18 @@ func muskOracle(tail int) func(c *gridx.Case, r *vf.Rec) {
 		}
 		// the same event run as consecutive calls that carry the returned states forward: every way to cut the event
 		// part, the zero tail as the last call; the volume must be conserved in exactly the same way
-		for mask := 1; mask < 1<<c.T; mask++ {
+		var masks []int // one cut at every position, a cut after every step, and (short events) every combination
+		if c.T <= 4 {
+			for mask := 1; mask < 1<<c.T; mask++ {
+				masks = append(masks, mask)
+			}
+		} else {
+			for t := 0; t < c.T; t++ {
+				masks = append(masks, 1<<t)
+			}
+			masks = append(masks, 1<<c.T-1, 0x55&(1<<c.T-1))
+		}
+		for _, mask := range masks {
 			var states []float64
 			from, wout := 0, 0.0
 			for t := 0; t < c.T; t++ {
@@ -288,8 +299,9 @@ func spaces(tier string) []*gridx.Space {
 	// StorageRouting
 	var sp [][]float64
 	var sn []string
-	// m = 0.9995 lies inside the kernel's own |m-1| < 0.001 special-casing window (used for non-zero bias only)
-	for _, km := range [][2]float64{{21600, 1}, {86400, 0.8}, {172800, 0.6}, {50000, 0.9995}} {
+	// m = 0.9995 lies inside the kernel's own |m-1| < 0.001 special-casing window (used for non-zero bias only);
+	// small m with a large k makes S(Q) so steep near zero flow that the root search stops on its convergence limit
+	for _, km := range [][2]float64{{21600, 1}, {86400, 0.8}, {172800, 0.6}, {50000, 0.9995}, {1e6, 0.3}, {1e6, 0.2}, {5e6, 0.5}, {2e5, 0.4}} {
 		ps, pn := gridx.Grid("StorageRouting", map[string]float64{"RoutingConstant": km[0], "RoutingPower": km[1], "DeltaT": 86400},
 			[]gridx.Axis{A("deadStorage", 0, 5e4), A("InflowBias", 0, 0.2), A("area", 0, 1e4)})
 		for i := range ps {
@@ -323,8 +335,8 @@ func spaces(tier string) []*gridx.Space {
 func Spec() *vf.Check {
 	return &vf.Check{
 		ID: "C11", Level: "exploration", BlockSize: 512,
-		Rule: "StorageRouting: (k,m) in {(21600,1),(86400,0.8),(172800,0.6),(50000,0.9995)} x dead storage {0,5e4} x bias {0,0.2} x area {0,1e4} x every word of length T over 11 (inflow,lateral,rain,evap) letters: per-step balance, Q>=0, S>=0, S=k*Q^m+dead within the solver tolerance (bias 0). " +
-			"Muskingum: (K,X) grid in the stable region x every (inflow,lateral) word + 600-step zero tail: event volume conserved (also when the event is cut into consecutive calls in every possible way, states carried forward), no negative outflow; every letter as a 400-step steady flow passes unchanged (in one call and in 100 calls of 4 steps). " +
+		Rule: "StorageRouting: (k,m) in {(21600,1),(86400,0.8),(172800,0.6),(50000,0.9995),(1e6,0.3),(1e6,0.2),(5e6,0.5),(2e5,0.4)} x dead storage {0,5e4} x bias {0,0.2} x area {0,1e4} x every word of length T over 11 (inflow,lateral,rain,evap) letters: per-step balance, Q>=0, S>=0, S=k*Q^m+dead within the solver tolerance (bias 0). " +
+			"Muskingum: (K,X) grid in the stable region x every (inflow,lateral) word + 600-step zero tail: event volume conserved (also when the event is cut into consecutive calls, states carried forward: every combination of cuts for events of up to 4 steps, every single cut / a cut after every step / after every second step for longer ones), no negative outflow; every letter as a 400-step steady flow passes unchanged (in one call and in 100 calls of 4 steps). " +
 			"Lag: lag {0,1,2,3,5,8} x every word of every length 1..T+2 over {0,1,7} x {zero, pre-filled} carried-over buffer: FIFO reference for outputs and final buffer. distinct_nontrivial = cases with non-zero flow.",
 		Assumptions: []string{"potential net evaporation is bounded using the loosest reading of the units (area*(evap-rain)/dt)", "StorageRouting S(Q) law is required up to the solver's two stopping tolerances: a balance residual <= massBalanceLimit or an index flow within 2*convergenceLimit of the exact root (near Q=0 with m<1 the S(Q) slope is unbounded, so the second one matters); the exact root is found by bisection in the harness", "lattice values only"},
 		Build:       func(tier string) vf.Enumeration { return gridx.NewEnum("C11", spaces(tier)) },
